@@ -331,6 +331,7 @@ fn patch_bias(rng: &mut Rng, p: &mut Vec<u8>, n: u16) -> Hostile {
     // satellite ids of the blocks: independent, all the same (one satellite collecting hundreds
     // of entries over many blocks), or alternating between two
     let policy = rng.below(4);
+    let compact = rng.chance(1, 3);
     let fixed = [rng.below(1 << idw), rng.below(1 << idw)];
     for bi in 0..nsat {
         if pos + idw + 5 > total_bits {
@@ -350,8 +351,25 @@ fn patch_bias(rng: &mut Rng, p: &mut Vec<u8>, n: u16) -> Hostile {
             if pos + 19 > total_bits {
                 break;
             }
-            let sig = if overflow || rng.chance(3, 4) { *rng.pick(&recognised) } else { rng.below(32) as u8 };
+            // `compact`: the frame is laid out the way the decoders read it -- an entry with an id outside the table
+            // takes 5 bits, its bias is not there (section 5, out-of-scope note) -- so that the blocks behind it
+            // still line up for the decoder and hundreds of recognised entries follow
+            let sig = if compact {
+                if rng.chance(1, 12) {
+                    rng.below(32) as u8
+                } else {
+                    *rng.pick(&recognised)
+                }
+            } else if overflow || rng.chance(3, 4) {
+                *rng.pick(&recognised)
+            } else {
+                rng.below(32) as u8
+            };
             bits::write(p, pos, 5, sig as u128);
+            if compact && !recognised.contains(&sig) {
+                pos += 5;
+                continue;
+            }
             bits::write(p, pos + 5, 14, rng.below(1 << 14) as u128);
             pos += 19;
         }
